@@ -343,8 +343,32 @@ func c18GenCase(t *rapid.T) c18Case {
 	c.Last = c18Ans{Kind: "main", H: c.N - 1}
 	c.Cand = rapid.SampledFrom([]string{"state", "state", "state", "none", "err"}).Draw(t, "cand")
 
-	switch rapid.IntRange(0, 9).Draw(t, "mode") {
+	switch rapid.IntRange(0, 10).Draw(t, "mode") {
 	case 0, 1: // honest remote
+	case 10: // from some height on the remote serves another, internally consistent history
+		lo := c.Local + 1
+		if lo > c.N-1 {
+			lo = c.N - 1
+		}
+
+		if lo < 0 {
+			lo = 0
+		}
+
+		k := rapid.IntRange(lo, c.N-1).Draw(t, "swapFrom")
+		if rapid.Bool().Draw(t, "swapAtBatchStart") && c.Local+1 <= c.N-1 {
+			// align with a batch boundary: the first proof of a batch is only checked against the previous batch
+			k = c.Local + 1 + ((k-c.Local-1)/c.Limit)*c.Limit
+		}
+
+		kind := rapid.SampledFrom([]string{"foreign", "foreign", "late"}).Draw(t, "swapKind")
+		for h := k; h <= c.N-1; h++ {
+			c.ByHeight[h] = c18Ans{Kind: kind, H: h}
+		}
+
+		if rapid.IntRange(0, 3).Draw(t, "swapLast") != 0 {
+			c.Last = c18Ans{Kind: kind, H: c.N - 1}
+		}
 	case 2: // only the last-proof answer is off
 		switch rapid.IntRange(0, 3).Draw(t, "lastMode") {
 		case 0:
@@ -566,6 +590,10 @@ func c18Run(t ev.TB, r *ev.Rec, w *c18World, c c18Case) (classes []string, nontr
 		}
 
 		kinds[k] = true
+	}
+
+	if len(c.ByHeight) > 4 {
+		classes = append(classes, "swapped-suffix")
 	}
 
 	for k := range kinds {
